@@ -42,7 +42,7 @@ type WPost struct {
 type WAct struct {
 	Kind  string `json:"kind"` // Create Announce
 	Post  int    `json:"post"`
-	Bad   string `json:"bad,omitempty"` // "" | other-actor | missing
+	Bad   string `json:"bad,omitempty"` // "" | other-actor | missing | no-actor (an activity that names no actor: not the owner's)
 	Stamp int    `json:"stamp"`
 }
 
@@ -234,6 +234,9 @@ func (w *World) Install(sim *vsim.Sim, prefix string) {
 					actor = w.ActorURL(prefix, (j+1)%len(w.Actors))
 				}
 				doc := map[string]any{"id": u, "type": act.Kind, "actor": actor, "object": w.PostURL(prefix, act.Post), "published": stampTime(act.Stamp)}
+				if act.Bad == "no-actor" {
+					delete(doc, "actor")
+				}
 				set(u, js(doc))
 				items = append(items, u)
 			}
@@ -321,6 +324,8 @@ func GenWorld(t *rapid.T) *World {
 				if na > 1 {
 					act.Bad = "other-actor"
 				}
+			case 2:
+				act.Bad = "no-actor"
 			}
 			a.Outbox = append(a.Outbox, act)
 		}
